@@ -81,13 +81,13 @@ def enc_naunet(r: AR):
 ENC = {"kida": enc_kida, "umist": enc_umist, "leeds": enc_leeds, "uclchem": enc_uclchem, "krome": enc_krome, "naunet": enc_naunet}
 
 
-def load(lines, fmt, **kw):
+def load(lines, fmt, tail="", **kw):
     from naunet.network import Network
     d = tempfile.mkdtemp(prefix="vf_net_")
     try:
         p = os.path.join(d, f"net.{fmt}")
         with open(p, "w") as f:
-            f.write("".join(l if l.endswith("\n") else l + "\n" for l in lines))
+            f.write("".join(l if l.endswith("\n") else l + "\n" for l in lines) + tail)
         return Network(filelist=p, fileformats=fmt, **kw)
     finally:
         shutil.rmtree(d, ignore_errors=True)
@@ -200,9 +200,20 @@ def check_decode(tier, seed):
             lines.append((r, line))
         # interleave blank / comment / directive lines (no reaction may come from them)
         text = []
+        blanks = ["", "   ", "\t", "  \t ", " " * 40, "\r"]
+        kspell = [("NONE", 0.0), ("10", 10.0), ("1.d1", 10.0), (".LE.1d2", 100.0), (">1.5d2", 150.0), (".GE..5d3", 500.0), ("<3d3", 3000.0), (".LT.4.1d4", 41000.0),
+                  (".GT.2.5e1", 25.0), (".25d2", 25.0), ("1e4", 10000.0), (".5d3", 500.0), (">.5d3", 500.0), (".LE..55d4", 5500.0), ("1000.", 1000.0), (".GE.5.5e3", 5500.0)]
+        kwin = {}
+        if fmt == "krome":
+            relined = []
+            for k, (r, line) in enumerate(lines):
+                (tl, vl), (tu, vu) = kspell[k % len(kspell)], kspell[(k * 5 + 3) % len(kspell)]
+                relined.append((r, enc_krome(r, tl, tu)))
+                kwin[k] = (vl, vu)
+            lines = relined
         for k, (r, line) in enumerate(lines):
             if k % 7 == 3:
-                text.append("")
+                text.append(blanks[(k // 7) % len(blanks)])        # blank lines of every kind: empty, spaces, tabs, a stray carriage return
             if fmt == "krome" and k % 9 == 4:
                 text.append("# a comment")
                 text.append("@common: user_av")
@@ -210,7 +221,7 @@ def check_decode(tier, seed):
         if fmt == "krome":
             text.insert(0, "@format:idx,R,R,R,P,P,P,P,Tmin,Tmax,rate")
         try:
-            net = load(text, fmt)
+            net = load(text, fmt, tail="\n   \n\t\n    ")        # the file ends in a run of blank lines, the last one without line break
         except Exception as e:
             V(fmt, f"load-raises: {type(e).__name__}: {e}", "")
             continue
@@ -219,9 +230,13 @@ def check_decode(tier, seed):
         if len(got) != len(lines):
             V(fmt, f"reaction-count: {len(got)} reactions from {len(lines)} data lines (blank/comment/directive lines interleaved)")
             continue
-        for (r, line), g in zip(lines, got):
+        for pos_, ((r, line), g) in enumerate(zip(lines, got)):
             if len(samples) < 6:
                 samples.append({"format": fmt, "line": line})
+            if fmt == "krome":
+                gl, gu = (0.0 if g.temp_min <= 0 else float(g.temp_min)), (0.0 if g.temp_max <= 0 else float(g.temp_max))
+                if (gl, gu) != kwin[pos_]:
+                    V(fmt, f"window: decoded {(g.temp_min, g.temp_max)} expected {kwin[pos_]} (0 = no bound)", line)
             if names(g.reactants) != sorted(_norm(x) for x in r.reactants) or names(g.products) != sorted(_norm(x) for x in r.products):
                 V(fmt, f"species: decoded {names(g.reactants)} -> {names(g.products)} expected {sorted(r.reactants)} -> {sorted(r.products)}", line)
                 continue
@@ -321,6 +336,78 @@ def check_krome_windows(tier, seed):
                 if got != want:
                     viol.append({"property": "C06", "what": f"guard-boundary: k[{i}] guard {g!r} at T={float(t)} is {got}, window ({vl},{vu}) says {want}",
                                  "signature": "C06:guard-boundary"})
+    fresh()
+    return cases, viol
+
+
+def check_api_windows(tier, seed):
+    """windows declared through the API with bounds of many significant digits and of extreme magnitude: the rendered guard is true
+    exactly on Tmin <= T < Tmax, probed at the bound and at its two neighbouring doubles; the same after the network went through
+    the exchange file (bounds with at most two decimals: that is what the file format keeps)"""
+    import math, tempfile, os, re
+    from fractions import Fraction
+    from naunet.network import Network
+    from naunet.reactions.reaction import Reaction
+    from naunet.reactiontype import ReactionType
+    from .native_ode import render, function_body
+    from . import ceval
+    viol, cases = [], 0
+    fine = [(-1.0, 11604.518), (11604.518, 2321750.5), (2321.7505, -1.0), (300.0, 1234567.0), (1234567.0, 1.0e99), (0.000123456789, 10.0), (10.0, 300.0), (-1.0, -1.0),
+            (123456.789, 123456.79), (9999.9995, 99999.995)]
+    coarse = [(10.0, 41000.0), (41000.0, 2.5e9), (2.5e9, -1.0), (-1.0e99, 1.0e99), (1234567.25, 7654321.75), (999999.99, 1000000.01), (-1.0, 1.0e8), (1.0e8, 1.0e10), (0.0, 0.0)]
+
+    def build(ws):
+        fresh()
+        return Network([Reaction(["H", "H"], ["H2"], lo, hi, 1.0e-10 * (k + 1), 0.0, 0.0, ReactionType.GAS_TWOBODY, k + 1) for k, (lo, hi) in enumerate(ws)])
+
+    def probe(net, ws, label):
+        nonlocal cases
+        files = render(net, "cvode", "dense", "cpu", jac_pattern=False)
+        body = function_body(files["src/naunet_rates.cpp"], r"int\s+EvalRates\s*\([^)]*\)\s*\{")
+        guards = {int(i): g for g, i in re.findall(r"(?:if \(([^)]*)\) \{\s*)?k\[(\d+)\] = [^;]*;", body)}
+        if sorted(guards) != list(range(len(ws))):
+            viol.append({"property": "C06", "what": f"{label}: statements for k{sorted(guards)[:6]}..., {len(ws)} reactions declared", "signature": f"C06:{label}:statements"})
+            return
+        for i, (lo, hi) in enumerate(ws):
+            vl, vu = (lo if lo > 0 else None), (hi if hi > 0 else None)
+            for b in [x for x in (vl, vu) if x is not None] or [100.0]:
+                for t in (math.nextafter(b, 0.0), b, math.nextafter(b, math.inf), b * 0.5, b * 2.0):
+                    if not math.isfinite(t):
+                        continue
+                    tq = Fraction(t)
+                    want = (vl is None or tq >= Fraction(vl)) and (vu is None or tq < Fraction(vu))
+                    g = guards[i]
+                    try:
+                        # decimal literals denote the nearest double (C semantics), the comparison is between doubles
+                        lits = {}
+                        gq = re.sub(r"(?<![\w.])(\d+\.?\d*(?:[eE][-+]?\d+)?|\.\d+(?:[eE][-+]?\d+)?)(?![\w.])",
+                                    lambda m: lits.setdefault(f"lit{len(lits)}", Fraction(float(m.group(1)))) and f"lit{len(lits) - 1}", g)
+                        got = True if not g else bool(ceval.value(ceval.parse_expr(gq), ceval.Env(idents={"Tgas": tq, **lits})))
+                    except Exception as e:
+                        viol.append({"property": "C06", "what": f"{label}: guard-invalid: k[{i}] guard {g!r}: {e}", "signature": f"C06:{label}:guard-invalid"})
+                        break
+                    cases += 1
+                    if got != want:
+                        viol.append({"property": "C06", "what": f"{label}: k[{i}] declared window ({lo}, {hi}) but guard {g!r} at T={t!r} is {got}",
+                                     "signature": f"C06:{label}:guard-boundary", "window": [lo, hi], "T": repr(t)})
+    try:
+        probe(build(fine + coarse), fine + coarse, "api-window")
+        net = build(coarse)
+        d = tempfile.mkdtemp(prefix="vf_c06_")
+        try:
+            fn = os.path.join(d, "reactions.naunet")
+            net.write(fn, "naunet")
+            fresh()
+            back = Network(filelist=fn, fileformats="naunet")
+            if len(back.reaction_list) != len(coarse):
+                viol.append({"property": "C06", "what": f"exchange-file: {len(back.reaction_list)} reactions read back, {len(coarse)} written", "signature": "C06:exchange-file:count"})
+            else:
+                probe(back, coarse, "exchange-file-window")
+        finally:
+            import shutil
+            shutil.rmtree(d, ignore_errors=True)
+    except Exception as e:
+        viol.append({"property": "C06", "what": f"api-window-raises: {type(e).__name__}: {e}", "signature": "C06:api-window-raises"})
     fresh()
     return cases, viol
 
@@ -817,8 +904,10 @@ def oracle(prop):
                     "rule": "each generated line is a distinct abstract reaction encoded by an encoder written from the format description"}
         if prop == "C06":
             cases, viol = check_krome_windows(tier, seed)
+            c2, v2 = check_api_windows(tier, seed)
+            cases, viol = cases + c2, viol + v2
             return {"cases": cases, "distinct": cases, "violations": viol, "samples": [{"krome": ".LE.1d2 / .GE..5d3 / NONE ..."}],
-                    "bound": "13 x 13 spellings of KROME Tmin/Tmax and the rendered guards at T = bound, bound +- 1e-3",
+                    "bound": "13 x 13 spellings of KROME Tmin/Tmax and the rendered guards at T = bound, bound +- 1e-3; 19 API windows (many digits, extreme magnitudes) at the bound and its neighbouring doubles, 9 of them also after a write/read cycle of the exchange file",
                     "rule": "every ordered pair of spellings is one distinct window"}
         if prop == "C18":
             cases, viol = check_roundtrip(tier, seed)
